@@ -256,6 +256,11 @@ static int c06_share_main (int argc, char **argv) {
     /* functional / anonymous function / local funptr / functional using a global, made by A (sole user of its program) and kept by B
      * as is, after bind(f, B), as pending call_out argument, as add_action carry-over argument; A destructed + deferred clean-up; B calls it */
     for (int kd = 0; kd < 16; kd++) add_share ("fpout", "funptr", 1, "holder-after-maker-is-freed", kd);
+    /* aliasing: both operands of a binary operator / op-assign are the same array / mapping / string / buffer, through a local, another
+     * variable, an array element, a mapping value, a global: += + -= - &= & |= | *= * (whatever the type supports), repeated, range */
+    for (int vt = 0; vt < 4; vt++) for (int form = 0; form < 23; form++) add_share ("alias", "same-container-twice", 1, "operands", vt * 32 + form);
+    /* call cache: refused call_other (static / private / protected / inherited / prototype / undefined) on a cold and a filled cache */
+    for (int kd = 0; kd < 24; kd++) add_share ("refused", "function-name", 1, "apply-cache", kd);
   }
   vm_elem_alarm_s = 600;
   fprintf (stderr, HNAME ": part=share scenarios=%ld\n", nshare);
